@@ -209,15 +209,65 @@ Definition map_val (kvs : list (list Z * val)) : option val :=
   else None.
 Definition obj_val (kvs : list (list Z * val)) : option val := Some (VObj (sort_kvs kvs)).
 
+(* ---- equality of values with sets compared AS SETS ----------------------------
+   cty's Value.Equals on two sets is mutual inclusion (`s1.Has` of every element
+   of s2 and back), whatever order the elements were added in.  The model keeps
+   the elements of a VSet in first-occurrence order, so the structural [val_eqb]
+   of Cty/Values.v tells `{x, null}` from `{null, x}`; [veq] compares the element
+   lists of sets as multisets (both sides are duplicate-free: multiset equality
+   is set equality), at every depth.  Used by [dedupe_from] below and by the
+   correspondence checker (Dec/DecodeCheck.v) to compare model and observed value. *)
+Fixpoint remove_first (f : val -> bool) (l : list val) : option (list val) :=
+  match l with
+  | [] => None
+  | x :: r => if f x then Some r
+              else match remove_first f r with Some r' => Some (x :: r') | None => None end
+  end.
+
+Fixpoint veq (fuel : nat) (a b : val) {struct fuel} : bool :=
+  match fuel with
+  | O => false
+  | S f =>
+      match a, b with
+      | VSet s l, VSet t l' =>
+          ty_eqb s t &&
+          (fix go (l l' : list val) : bool :=
+             match l with
+             | [] => match l' with [] => true | _ => false end
+             | x :: r => match remove_first (veq f x) l' with
+                         | Some l'' => go r l''
+                         | None => false
+                         end
+             end) l l'
+      | VList s l, VList t l' => ty_eqb s t && list_eqb (veq f) l l'
+      | VTuple l, VTuple l' => list_eqb (veq f) l l'
+      | VMap s l, VMap t l' =>
+          ty_eqb s t && list_eqb (fun p q => str_eqb (fst p) (fst q) && veq f (snd p) (snd q)) l l'
+      | VObj l, VObj l' =>
+          list_eqb (fun p q => str_eqb (fst p) (fst q) && veq f (snd p) (snd q)) l l'
+      | VMark m v, VMark m' v' => zlist_eqb m m' && veq f v v'
+      | _, _ => val_eqb a b
+      end
+  end.
+Definition val_eqb_ms (a b : val) : bool := veq (S (val_size a)) a b.
+
 (* cty.SetVal: marks are hoisted to the set, duplicates (wholly known, equal)
-   collapse.  The iteration order of go-cty sets of structured values is an
-   internal hash order: the model keeps first-occurrence order and the
-   correspondence compares sets as multisets. *)
+   collapse.  "Equal" is Value.Equals (setRules.Equivalent), under which two
+   elements that CONTAIN sets are the same element when those sets have the same
+   members, in whatever order (and with however many repetitions) they were
+   written: the two blocks
+       b "k" { c {}  c {}  c { a = 1 } }      b "k" { c { a = 1 }  c {} }
+   of a BlockSetSpec whose body holds another BlockSetSpec are ONE element of
+   the outer set — hence [val_eqb_ms], not the order-sensitive [val_eqb] (a
+   disagreement found by the thorough correspondence run, 1 case in 60,000).
+   The iteration order of go-cty sets of structured values is an internal hash
+   order: the model keeps first-occurrence order and the correspondence compares
+   sets as multisets. *)
 Fixpoint dedupe_from (seen : list val) (vs : list val) : list val :=
   match vs with
   | [] => []
   | v :: r =>
-      if existsb (fun x => wholly_known x && wholly_known v && val_eqb x v) seen
+      if existsb (fun x => wholly_known x && wholly_known v && val_eqb_ms x v) seen
       then dedupe_from seen r
       else v :: dedupe_from (v :: seen) r
   end.
